@@ -224,7 +224,7 @@ Die(G, e) ==
 \* SIGCHLD is sent to the parent PROCESS (counted at its leader); any of its threads may take it
 ChldTo(k) == LET p == par[Leader(k)] IN
   IF Noise /\ p # 0 /\ (\E i \in Group(p) : Alive(i))
-    THEN [nchld EXCEPT ![Leader(p)] = IF @ < 2 THEN @ + 1 ELSE @] ELSE nchld
+    THEN [nchld EXCEPT ![Leader(p)] = IF @ < 3 THEN @ + 1 ELSE @] ELSE nchld
 
 K_ExitGroup(k) ==
   /\ Ready(k) /\ sub[k] = "" /\ CurOp(k).k = "X"
